@@ -11,7 +11,7 @@ PROPERTY = "C05"
 LEVEL = "model_checking"
 ENGINE = "E-SCEN"
 RULE = (
-    "every multiset of n reporting units (n in 3..N) over (baseline+1 = w in {10,20,50}) x (counted = {5,12,30,80} * w/10), with four outstanding "
+    "every multiset of n reporting units (n in 3..N) over (baseline+1 = w in {10,20,50}) x (counted = {4,12,30,80} * w/10), with four outstanding "
     "units (baseline+1 in {13,27,50,7}, partial counts 0 / small / huge / 1, so products are fractional), unit types county and precinct, wide and default turnout-factor limits, and (n = 3) the estimand pair [dem, turnout] with different swings in one run; one real get_estimates each (input files sorted by unit id, baseline file reversed, or both files shuffled, in rotation), no "
     "features, no fixed effects. Oracle in exact rationals: m = w-weighted median of (counted-w)/w over the modelled reporting units; every outstanding "
     "unit's pred = max(round(w_i(1+m)), partial_i). Scenarios whose weighted median is not unique are counted and skipped. non-trivial = weighted and "
@@ -19,7 +19,7 @@ RULE = (
 )
 ASSUMPTIONS = ["half-integer products are accepted at either neighbour (numerical policy of DESIGN.md 3.4)"]
 W = [10, 20, 50]
-MULT = [5, 12, 30, 80]
+MULT = [4, 12, 30, 80]  # turnout factors about 0.4 / 1.2 / 3 / 8: the first and the last two are outside the default limits (0.5, 2), inside the wide ones
 SELFCHECK_INDEX = 9
 
 
